@@ -1023,6 +1023,30 @@ def run_wsthread(ctx, d):
     return fails, n
 
 
+UDP_FINDING = "udp-input-unauthenticated"
+
+
+def run_udp(ctx):
+    """UDP input channel (screen->udpPort, off by default): on a password-protected screen a datagram
+    from a socket that never authenticated must not reach a callback.  Witness harness/c06_udp.c.
+    Runs once known_findings.json has an entry with this id (known: reported as KNOWN-FINDING; fixed:
+    must pass); see docs/C06.md."""
+    if not any(k.get("id") == UDP_FINDING for k in ctx.known):
+        return [], 0
+    exe = ctx.harness("c06_udp")
+    fails = []
+    rc, out, err = ctx.run_lines(exe, "", timeout=300, args=["1"])
+    cbs = [l for l in out if l.startswith(("kbd ", "ptr "))]
+    if rc != 0 or not out or not out[-1].startswith("="):
+        fails.append({"kind": "crash", "what": "c06_udp exit %d" % rc, "script": ["# harness/c06_udp.c 1"], "impl": out, "detail": err})
+    elif cbs:
+        fails.append({"kind": "oracle", "what": "UDP input on a password-protected screen", "finding": UDP_FINDING,
+                      "detail": "unauthenticated datagrams reached the application: %r" % cbs,
+                      "script": ["# harness/c06_udp.c 1  (screen with password list, udpPort set; KeyEvent and PointerEvent datagrams from an unrelated socket)"],
+                      "impl": out, "family": "udp"})
+    return fails, 1
+
+
 # ----------------------------------------------------------------------------- run
 def classify(sc, impl, dist, seen):
     dist["family"][sc.family] = dist["family"].get(sc.family, 0) + 1
@@ -1052,6 +1076,21 @@ def run(ctx):
     rng = ctx.rng
     thorough = ctx.tier == "thorough"
     scripts = []
+    if ctx.replay and json.load(open(ctx.replay)).get("family") == "wsthread":
+        rec = json.load(open(ctx.replay))
+        hdr = rec["script"][0].split()               # "# harness/c06_wsthread.c MODE PW"
+        exe = ctx.harness("c06_wsthread")
+        rc, out, err = ctx.run_lines(exe, rec["script"][1] + "\n", timeout=900, args=[hdr[2], hdr[3]])
+        cbs = [l for l in out if l.startswith(CB)]
+        fails = []
+        want = rec.get("impl", [])[:-1]
+        if rc != 0:
+            fails.append({"kind": "crash", "what": "c06_wsthread exit %d" % rc, "script": rec["script"], "impl": out, "detail": err})
+        elif cbs and cbs == want:
+            fails.append({"kind": "oracle", "what": rec.get("what", "wsthread replay"), "detail": "still happens: " + rec.get("detail", ""),
+                          "script": rec["script"], "impl": out, "family": "wsthread"})
+        return {"evaluations": 1, "distinct_nontrivial": 1, "rule": "replay of one real-socket scenario", "samples": [],
+                "distribution": {}, "failures": fails, "partial": PARTIAL, "assumptions": ASSUMPTIONS}
     if ctx.replay:
         rec = json.load(open(ctx.replay))
         sc = Script(rec.get("family", "replay"))
@@ -1106,6 +1145,9 @@ def run(ctx):
     if not ctx.replay:
         wf, ws_evals = run_wsthread(ctx, d)
         fails.extend(wf)
+        uf, un = run_udp(ctx)
+        fails.extend(uf)
+        ws_evals += un
     dist = {"family": {}, "msgs": {}, "cuts": {}, "malformed_or_handshake_sends": 0, "callbacks": 0, "closed": 0}
 
     # A hung or blocked server is a counterexample, reported in bounded time: the harness has its own
@@ -1176,7 +1218,8 @@ ASSUMPTIONS = [
     "interposed read/recv/select model the kernel: read returns a non-empty prefix of the bytes that have arrived (at most the requested length), EAGAIN when none, select wakes when the next segment arrives and times out when none is in flight (virtual time)",
     "server-side writes never fail (4 MiB socket buffers, harness drains after every op)",
     "a raw 16-byte `send` in state RFB_AUTHENTICATION is not a valid DES response (probability 2^-128); valid responses are injected by the `auth` op using the library's own rfbEncryptBytes",
-    "single screen, alwaysShared, application-driven event loop (no background thread): rfbProcessClientMessage is called while input is pending, rfbProcessEvents on `pump`",
+    "harness/c06.c: single screen, alwaysShared, application-driven event loop: rfbProcessClientMessage is called while input is pending and the connection is open, rfbProcessEvents on `pump`; the threaded loop (clientInput) and the real rfbCheckFds loop are exercised by harness/c06_wsthread.c over real sockets (timing-based waits: up to 10 s per scenario for the server to answer)",
+    "UDP input (screen->udpPort, off by default) is outside the model; it is unauthenticated by construction (proposed known finding udp-input-unauthenticated, witness harness/c06_udp.c)",
     "a corrupt extended-clipboard payload in a raw `send` is generated with an invalid zlib header byte, so that inflate fails for certain (model: inflate oracle returns none)",
     "SetPixelFormat is generated with sane shifts/maxima only (shifts >= 32 and 24bpp table init have sanitizer findings that belong to C04/C10)",
 ]
